@@ -15,7 +15,7 @@ _APPS = [
 ]
 
 _WEIGHTS = [
-    ('put', 18), ('del', 14), ('replace', 8), ('refresh', 3),
+    ('put', 18), ('del', 14), ('replace', 8), ('refresh', 6),
     ('deliver', 26), ('drain', 6),
     ('ready0', 4), ('ready1', 9),
     ('exit', 7), ('tomb', 7), ('clean', 9),
@@ -57,7 +57,7 @@ class Gen:
         self.next_gen = 1
         self.length = (rng.randrange(8, 30) if tier == 'quick'
                        else rng.randrange(12, 56))
-        self.p_bad = rng.choice((0.0, 0.08, 0.08, 0.25))
+        self.p_bad = rng.choice((0.0, 0.1, 0.15, 0.3))
         # tidy histories: events are delivered promptly and old containers are
         # cleaned before the manager (re)synchronises - long histories in which
         # at most one generation of an instance exists at a synchronisation
@@ -75,7 +75,8 @@ class Gen:
             ops.append(('ready', 1))
         for inst in self.insts:
             if rng.random() < 0.75:
-                ops.append(('put', inst, self._new_gen(), False, _shape(rng)))
+                ops.append(('put', inst, self._new_gen(),
+                            rng.random() < self.p_bad, _shape(rng)))
         if rng.random() < 0.8:
             if ops and ops[0] != ('ready', 1):
                 ops.append(('ready', 1))
